@@ -276,42 +276,125 @@ def run_tlc_groups(ctx, progs, cfg, label, group=4, workers=4, par=4, timeout=30
 
 # ------------------------------------------------------------------- replay
 
-def replay(ctx, b, hists, exe):
-    """Step the compiled C through every exported history; return mismatches."""
+def _drive(exe, lines, per_line_s):
+    """Feed `lines` to the replay driver and collect its answers (one per line).
+    Returns (answers, why): why is None when every line was answered, "hang"
+    when an answer did not arrive within per_line_s seconds, "died rc=.." when
+    the driver ended early (crash)."""
+    import select, threading
+    p = subprocess.Popen([exe], stdin=subprocess.PIPE, stdout=subprocess.PIPE, stderr=subprocess.DEVNULL)
+    data = ("\n".join(lines) + "\n").encode()
+
+    def feed():
+        try:
+            p.stdin.write(data)
+            p.stdin.close()
+        except (BrokenPipeError, OSError):
+            pass
+    th = threading.Thread(target=feed, daemon=True)
+    th.start()
+    out, buf, why = [], b"", None
+    fd = p.stdout.fileno()
+    while len(out) < len(lines):
+        r, _, _ = select.select([fd], [], [], per_line_s)
+        if not r:
+            why = "hang"
+            break
+        chunk = os.read(fd, 1 << 16)
+        if not chunk:
+            break
+        buf += chunk
+        while b"\n" in buf:
+            ln, buf = buf.split(b"\n", 1)
+            out.append(ln.decode("latin-1"))
+    if why == "hang":
+        p.kill()
+    try:
+        p.wait(timeout=10)
+    except subprocess.TimeoutExpired:
+        p.kill()
+        p.wait()
+    if why is None and len(out) < len(lines):
+        why = "died rc=%s" % p.returncode
+    return out, why
+
+
+def replay(ctx, b, hists, exe, per_line_s=6.0):
+    """Step the compiled C through every exported history; return mismatches.
+    A history on which the compiled C does not answer (it hangs, confirmed by a
+    second run of that history alone with a 4x budget, or it crashes, confirmed
+    the same way) is a mismatch too; after a confirmed one the remaining
+    histories of the same program and function are not driven."""
     byname = {p["name"]: (i, p) for i, p in enumerate(b.progs)}
-    lines, idx = [], []
+    items = []
     for h in hists:
         if not h["hist"] or h["progname"] not in byname:
             continue
         i, p = byname[h["progname"]]
-        idx.append((h, p, len(lines)))
-        lines += wcore.history_script(i, h)
-    if not lines:
-        return [], 0
-    r = subprocess.run([exe], input="\n".join(lines) + "\n", capture_output=True, text=True, timeout=1800)
-    outl = r.stdout.splitlines()
-    if len(outl) != len(lines):
-        raise ToolingError("replay driver answered %d lines for %d (rc=%s): %s" % (len(outl), len(lines), r.returncode, r.stderr[-1500:]))
+        items.append((h, p, wcore.history_script(i, h)))
     bad, calls = [], 0
-    for h, p, start in idx:
-        frec = {f["name"]: f for f in p["funcs"]}
-        for k, c in enumerate(h["hist"]):
-            rep = wcore.parse_reply(outl[start + 1 + k])
-            calls += 1
-            f = frec[c["fn"]]
-            if f["eff"] == "?":
-                exp_st = wcore.c_status(p["pkg"], c["st"])
-            elif f["rets"] == "status":
-                exp_st = wcore.c_status(p["pkg"], c["rv"] if isinstance(c["rv"], str) else c["st"])
+    dead = set()           # (program, function) with a confirmed hang / crash
+    pos = 0
+    while pos < len(items):
+        chunk = [it for it in items[pos:] if not any((it[1]["name"], c["fn"]) in dead for c in it[0]["hist"])]
+        pos = len(items)
+        if not chunk:
+            break
+        lines, starts = [], []
+        for (h, p, scr) in chunk:
+            starts.append(len(lines))
+            lines += scr
+        outl, why = _drive(exe, lines, per_line_s)
+        nfull = len(chunk)
+        if why is not None:
+            # the history that contains the first unanswered line
+            k = max(i for i, st in enumerate(starts) if st <= len(outl))
+            nfull = k
+            h, p, scr = chunk[k]
+            out2, why2 = _drive(exe, scr, per_line_s * 4)
+            if why2 is None:
+                # not reproducible in isolation (load spike, or a crash that needs the earlier histories): tooling, not a verdict
+                out3, why3 = _drive(exe, lines[:starts[k] + len(scr)], per_line_s * 4)
+                if why3 is None:
+                    outl = out3 + outl[len(out3):]
+                    nfull = k + 1
+                else:
+                    raise ToolingError("replay driver %s only in a batch, not on the history alone: %s" % (why3, json.dumps(h)[:1500]))
             else:
-                exp_st = None
-            exp_ret = c["rv"] if f["rets"] == "num" and isinstance(c["rv"], int) else 0
-            ok = rep is not None and rep["st"] == exp_st and rep["ri"] == c["ri"] and rep["out"] == c["out"] and rep["ret"] == exp_ret
-            if not ok:
-                bad.append({"prog": p["name"], "origin": p["origin"], "input": h["input"], "call_index": k, "history": h["hist"][:k + 1],
-                            "spec_expects": {"status": exp_st, "ri": c["ri"], "out": c["out"], "ret": exp_ret}, "c_says": rep,
+                ci = max(0, min(len(h["hist"]) - 1, len(out2) - 1))
+                c = h["hist"][ci]
+                bad.append({"prog": p["name"], "origin": p["origin"], "input": h["input"], "call_index": ci, "history": h["hist"][:ci + 1],
+                            "spec_expects": {"status": c["st"], "ri": c["ri"], "out": c["out"], "ret": c["rv"]},
+                            "c_says": "no answer: the compiled C %s (confirmed by a second run of this history alone, %.0f s per call)" % (
+                                "hangs" if why2 == "hang" else "crashes, " + why2, per_line_s * 4),
                             "source": p["src"]})
-                break
+                dead.add((p["name"], c["fn"]))
+                calls += ci + 1
+            # continue behind the failing history
+            rest = chunk[k + 1:]
+            items = items[:0] + rest
+            pos = 0
+        for j in range(nfull):
+            h, p, scr = chunk[j]
+            start = starts[j]
+            frec = {f["name"]: f for f in p["funcs"]}
+            for k2, c in enumerate(h["hist"]):
+                rep = wcore.parse_reply(outl[start + 1 + k2])
+                calls += 1
+                f = frec[c["fn"]]
+                if f["eff"] == "?":
+                    exp_st = wcore.c_status(p["pkg"], c["st"])
+                elif f["rets"] == "status":
+                    exp_st = wcore.c_status(p["pkg"], c["rv"] if isinstance(c["rv"], str) else c["st"])
+                else:
+                    exp_st = None
+                exp_ret = c["rv"] if f["rets"] == "num" and isinstance(c["rv"], int) else 0
+                ok = rep is not None and rep["st"] == exp_st and rep["ri"] == c["ri"] and rep["out"] == c["out"] and rep["ret"] == exp_ret
+                if not ok:
+                    bad.append({"prog": p["name"], "origin": p["origin"], "input": h["input"], "call_index": k2, "history": h["hist"][:k2 + 1],
+                                "spec_expects": {"status": exp_st, "ri": c["ri"], "out": c["out"], "ret": exp_ret}, "c_says": rep,
+                                "source": p["src"]})
+                    break
     return bad, calls
 
 
